@@ -5,6 +5,7 @@ package main
 
 import (
 	"bytes"
+	"crypto/sha512"
 	"fmt"
 	"math/big"
 
@@ -15,6 +16,7 @@ import (
 	"gitlab.com/yawning/obfs4.git/internal/zzverif/mc"
 	"gitlab.com/yawning/obfs4.git/internal/zzverif/ref"
 	"gitlab.com/yawning/obfs4.git/internal/zzverif/rnd"
+	"gitlab.com/yawning/obfs4.git/internal/zzverif/sched"
 )
 
 func fail(c *mc.Ctx, oracle, key, format string, a ...any) {
@@ -197,6 +199,119 @@ func decodeScenario(name string, strs [][]byte) mc.Scenario {
 	}}
 }
 
+// unluckyStreak: the random source yields a run of N candidates that have no
+// representative before one that has: NewKeypair must still return a key pair
+// that satisfies the property (or an error), whatever the length of the run.
+func unluckyStreak(seed int64, N int) mc.Scenario {
+	return mc.Scenario{Name: fmt.Sprintf("ntor-newkeypair/unlucky-streak-%d", N), Weight: 1 + N/20, Run: func(c *mc.Ctx) {
+		src := rnd.New(seed, "c07-streak")
+		var script []byte
+		for n := 0; n < N; {
+			in := src.Bytes(32)
+			d := sha512.Sum512(in)
+			var priv, pub, repr [32]byte
+			copy(priv[:], d[:32])
+			if !x25519ell2.ScalarBaseMult(&pub, &repr, &priv, d[63]) {
+				script = append(script, in...)
+				n++
+			}
+		}
+		st := rnd.New(seed, "c07-streak-tail")
+		st.Script = script
+		rnd.Install(st)
+		kp, err := ntor.NewKeypair(true)
+		c.AddExecutions(1)
+		if err != nil {
+			c.Observe("streak", "error")
+			return // reporting failure is allowed
+		}
+		if !checkKeypair(c, kp, fmt.Sprintf("NewKeypair after %d candidates without a representative", N)) {
+			return
+		}
+		if st.Reads < int64(32*(N+1)) {
+			fail(c, "keypair", "keypair/streak-not-consumed", "NewKeypair read %d random bytes, the scripted run alone is %d", st.Reads, 32*N)
+		}
+		c.Observe("streak", fmt.Sprintf("%x", kp.Representative().Bytes()[:4]))
+	}}
+}
+
+// concurrentKeygen: n threads generate (and decode) keys at the same time, with
+// scheduling points at every statement of the x25519ell2 functions.  The
+// functions are pure: every thread must obtain what it obtains alone.
+func concurrentKeygen(seed int64, nthreads, bound int) mc.Scenario {
+	return mc.Scenario{Name: fmt.Sprintf("concurrent-keygen/%d-threads", nthreads), Bound: bound, Weight: 100, Run: func(c *mc.Ctx) {
+		type job struct {
+			priv            [32]byte
+			tweak           byte
+			pub, repr, back [32]byte
+			ok              bool
+		}
+		var want, got []*job
+		src := rnd.New(seed, "c07-conc")
+		for len(want) < nthreads {
+			j := &job{tweak: byte(0x40 * len(want))}
+			copy(j.priv[:], src.Bytes(32))
+			j.ok = x25519ell2.ScalarBaseMult(&j.pub, &j.repr, &j.priv, j.tweak)
+			if !j.ok && len(want) != nthreads-1 {
+				continue // at most the last thread works on a key without representative
+			}
+			if j.ok {
+				x25519ell2.RepresentativeToPublicKey(&j.back, &j.repr)
+			}
+			want = append(want, j)
+			got = append(got, &job{priv: j.priv, tweak: j.tweak})
+		}
+		res := sched.Run(c, sched.Options{PreemptKinds: []string{"stmt"}, MaxSteps: 1_000_000}, func() {
+			s := sched.Cur()
+			for i := range got {
+				j := got[i]
+				s.Spawn(fmt.Sprintf("keygen%d", i), func() {
+					j.ok = x25519ell2.ScalarBaseMult(&j.pub, &j.repr, &j.priv, j.tweak)
+					if j.ok {
+						x25519ell2.RepresentativeToPublicKey(&j.back, &j.repr)
+					}
+				})
+			}
+		})
+		if len(res.Panics) > 0 {
+			fail(c, "concurrent", "concurrent/panic", "%s", res.Panics[0])
+			return
+		}
+		for i := range got {
+			if *got[i] != *want[i] {
+				fail(c, "concurrent", "concurrent/differs", "thread %d (private key %x): concurrently ok=%v pub=%x repr=%x decode=%x, alone ok=%v pub=%x repr=%x decode=%x", i, want[i].priv[:4], got[i].ok, got[i].pub[:6], got[i].repr[:6], got[i].back[:6], want[i].ok, want[i].pub[:6], want[i].repr[:6], want[i].back[:6])
+				return
+			}
+		}
+		c.Observe("ok", nthreads)
+	}}
+}
+
+// checkKeypair applies the C07 oracle to one generated ntor key pair.
+func checkKeypair(c *mc.Ctx, kp *ntor.Keypair, what string) bool {
+	repr0 := *kp.Representative()
+	pk := kp.Representative().ToPublic()
+	if !bytes.Equal(pk.Bytes()[:], kp.Public().Bytes()[:]) {
+		fail(c, "keypair", "keypair/round-trip", "%s: Representative().ToPublic() != Public()", what)
+		return false
+	}
+	if ref.RepresentativeToU(repr0[:]).Cmp(ref.LE(kp.Public().Bytes()[:])) != 0 {
+		fail(c, "keypair", "keypair/reference", "%s: reference decoding of the representative differs from the public key", what)
+		return false
+	}
+	found := false
+	for _, cand := range ref.DirtyCandidates(kp.Private().Bytes()[:]) {
+		if cand.Cmp(ref.LE(kp.Public().Bytes()[:])) == 0 {
+			found = true
+		}
+	}
+	if !found {
+		fail(c, "keypair", "keypair/coset", "%s: public key %x is not clamp(k)*B + T for the returned private key", what, kp.Public().Bytes()[:])
+		return false
+	}
+	return true
+}
+
 func keypairScenario(seed int64, K int) mc.Scenario {
 	return mc.Scenario{Name: "ntor-newkeypair", Weight: K / 8, Run: func(c *mc.Ctx) {
 		topBits := map[byte]bool{}
@@ -354,5 +469,10 @@ func main() {
 			nk = 512
 		}
 		emit(keypairScenario(cfg.Seed, nk))
+		emit(concurrentKeygen(cfg.Seed, 2, 2))
+		emit(concurrentKeygen(cfg.Seed, 3, 1))
+		for _, n := range []int{1, 63, 64, 65, 130} {
+			emit(unluckyStreak(cfg.Seed, n))
+		}
 	})
 }
